@@ -70,3 +70,17 @@ Proof. exact lookup_forms_agree. Qed.
 Theorem C10_as_dict_entry : forall r k, In k (keys r) ->
   In (k, v_to_item (mm_lookup_present (view r) k)) (spec_as_dict (view r)) \/ mm_lookup (view r) k = None.
 Proof. exact as_dict_entry. Qed.
+
+(* the well-formedness invariant of reachable results (distinct keys, no empty occurrence list): it holds for every
+   constructor call and is preserved by every operation, hence along every history *)
+Theorem C10_wf_init : forall x name asList modal_, (forall r, x = RPR r -> wf r) -> wf (pr_init x name asList modal_).
+Proof. exact (pr_init_gen_wf true). Qed.
+Theorem C10_wf_preserved : forall ops r, wf r -> wf (snd (run_ops r ops)).
+Proof. exact run_ops_wf. Qed.
+Example C10_wf_instance : wf (pr_init (RList [TStr [97%N]]) (Some [107%N]) true false) /\ wf pr_empty.
+Proof. split; apply C10_wf_init || (split; constructor); discriminate. Qed.
+
+(* for a well-formed result a present name always has a value, and the three lookup forms return it *)
+Theorem C10_lookup_forms_agree_wf : forall r k, wf r -> contains r k = true ->
+  exists v, getitem_name r k = Some v /\ getattr r k = RTok v /\ forall d, get r k d = v.
+Proof. exact lookup_forms_agree_wf. Qed.
